@@ -32,11 +32,11 @@ def run(ctx):
     viol, known = pipeline.settle(ctx, SUB, JUDGE, "", recs)
     return vlib.finish(
         ctx, "model_checking",
-        "TLC enumerates every sequence of typed/raw writes and alignment skips to depth %d (14 operations per step: 5 widths x "
-        "{position-tagged, all-ones}, raw 0/1/3 bytes, align), every enabled sequence of decoder operations (skip 1/3/5, align, "
+        "TLC enumerates every sequence of typed/raw writes and alignment skips to depth %d (15 operations per step: 5 widths x "
+        "{position-tagged, all-ones}, raw 0/1/3 bytes, PutChar, align), every enabled sequence of decoder operations (skip 1/3/5, align, "
         "slice len 4/9/12 rewind 0/2, reads 1/2/4, pop) to depth %d over a 40-byte message, header decoding for every input length "
         "0..16 at offsets 0..3, plus seeded simulated sequences of depth %d; each is executed on ofbase.Encoder/Decoder and every "
-        "returned value, offset, base offset and remaining length is judged by TLC against OfBase.tla. Scenarios are distinct by "
+        "returned value, offset, base offset, remaining length and unread rest (Bytes) is judged by TLC against OfBase.tla. Scenarios are distinct by "
         "construction (distinct histories)." % (dE, dD, depth),
         viol, known, ["decoder operations are generated only where the specification enables them (in-bounds)"],
         exhaustive=True)
